@@ -28,15 +28,19 @@
 (* ParamNames / Fixed / Free / Bounded(b)   names and constraints           *)
 (*                                                                          *)
 (* The card grammar (shape x final-state scheme x J^P assignment x one      *)
-(* option site) is the state space: Init picks a card, the invariants are   *)
-(* evaluated per card, Post emits every card with what it denotes.          *)
-EXTENDS Integers, Sequences, FiniteSets, TLC, Json, IOUtils
+(* option site) is the state space: Init picks a card, the theorems         *)
+(* (WellFormed, SeqIsSet, ChainShape, KeptSubset, DroppedIff,               *)
+(* FlatEquivalent, LineOrder, MirrorSameChains, NamesConsistent; their      *)
+(* conjunction is the invariant Theorems) are evaluated per card, and Post  *)
+(* emits every card with what it denotes.                                   *)
+EXTENDS Integers, Sequences, SequencesExt, FiniteSets, TLC, Json, IOUtils
 
 CONSTANTS
     Shapes,      \* subset of AllShapes
     Schemes,     \* subset of {"vec", "sca", "bar"}
-    MesonJ2,     \* doubled spins offered to the leading resonances (meson schemes)
-    BaryonJ2,    \* same for the baryon scheme
+    MesonJ2,     \* doubled spins offered to the leading resonances, scheme "vec"
+    ScalarJ2,    \* same, scheme "sca"
+    BaryonJ2,    \* same, scheme "bar"
     DecOpts,     \* subset of {"pbreak", "pball", "l0", "l1"}
     ParOpts,     \* subset of {"float_m", "float_g", "float_mg", "bnd", "float_g_bnd", "float_mg_bnd"}
                  \*   (float / m_min, m_max of the first leading resonance)
@@ -44,14 +48,13 @@ CONSTANTS
 
 VARIABLE card
 
-
 \* the (l,s) selection rule: LSCoupling.tla as it is (its variable is not used
 \* by the operators we call)
 LS == INSTANCE LSCoupling WITH MaxJ2 <- 4, cfg <- card
 
 ----------------------------------------------------------------------------
 \* generic helpers
-Range(s) == {s[i] : i \in DOMAIN s}
+\* Range, Reverse, SetToSeq come from SequencesExt / Functions
 RECURSIVE Flatten(_)
 Flatten(ss) == IF ss = <<>> THEN <<>> ELSE Head(ss) \o Flatten(Tail(ss))
 RECURSIVE JoinStr(_)
@@ -60,14 +63,13 @@ Count(s, x) == Cardinality({i \in DOMAIN s : s[i] = x})
 \* a \X b as a sequence of concatenations, a-major (cross_combine)
 CrossSeq(a, b) ==
     [k \in 1..(Len(a) * Len(b)) |-> a[((k - 1) \div Len(b)) + 1] \o b[((k - 1) % Len(b)) + 1]]
-Reverse(s) == [i \in 1..Len(s) |-> s[Len(s) + 1 - i]]
 
 ----------------------------------------------------------------------------
 \* the card grammar
 L(c, o1, o2) == [core |-> c, outs |-> <<o1, o2>>]
 NoCands == [x \in {} |-> <<>>]
 
-AllShapes == {"s3_1", "s3_2", "s3_12", "s3_3", "s3_sh", "s4_c", "s4_c2", "s4_b", "s4_m"}
+AllShapes == {"s3_1", "s3_2", "s3_12", "s3_3", "s3_sh", "s3_e", "s4_c", "s4_c2", "s4_b", "s4_m"}
 
 \* lead: resonances that range over the full J^P set; rest: over a 2-element set
 ShapeDef(s) ==
@@ -94,6 +96,12 @@ ShapeDef(s) ==
             lines |-> <<L("A", "R_BC", "D"), L("A", "R_BD", "C"), L("R_BC", "B", "C"), L("R_BD", "B", "D")>>,
             cands |-> ("R_BC" :> <<"Z1", "Z2">>) @@ ("R_BD" :> <<"Z1", "Y1">>),
             lead |-> <<"Z1", "Y1">>, rest |-> <<"Z2">>]
+      [] s = "s3_e" ->    \* `R_CD: []`: a slot kept for the angles only, it contributes no decay
+           [finals |-> <<"B", "C", "D">>,
+            lines |-> <<L("A", "R_BC", "D"), L("A", "R_BD", "C"), L("A", "R_CD", "B"),
+                        L("R_BC", "B", "C"), L("R_BD", "B", "D"), L("R_CD", "C", "D")>>,
+            cands |-> ("R_BC" :> <<"Z1", "Z2">>) @@ ("R_CD" :> <<>>),
+            lead |-> <<"Z1", "R_BD">>, rest |-> <<"Z2">>]
       [] s = "s4_c" ->    \* cascade
            [finals |-> <<"B", "C", "D", "E">>,
             lines |-> <<L("A", "X", "E"), L("X", "Y", "D"), L("Y", "B", "C")>>,
@@ -118,7 +126,7 @@ SchemeQN(k) ==
     CASE k = "vec" -> [n \in {"A", "B", "C"} |-> <<2, -1>>] @@ [n \in {"D", "E"} |-> <<0, -1>>]
       [] k = "sca" -> [n \in {"A", "B", "C", "D", "E"} |-> <<0, -1>>]
       [] k = "bar" -> [n \in {"A", "B"} |-> <<1, 1>>] @@ [n \in {"C", "D", "E"} |-> <<0, -1>>]
-LeadQN(k) == (IF k = "bar" THEN BaryonJ2 ELSE MesonJ2) \X {1, -1}
+LeadQN(k) == (CASE k = "bar" -> BaryonJ2 [] k = "sca" -> ScalarJ2 [] OTHER -> MesonJ2) \X {1, -1}
 RestQN(k) == IF k = "bar" THEN {<<1, -1>>, <<2, -1>>} ELSE {<<2, -1>>, <<0, 1>>}
 
 QNAssign(s, k) ==
@@ -265,72 +273,98 @@ Flat(b) ==
     LET E == Expand(b)
     IN [b EXCEPT !.lines = [i \in 1..Len(E) |-> [core |-> E[i].core, outs |-> E[i].outs, pbreak |-> E[i].pbreak, ll |-> E[i].ll]],
                  !.cands = NoCands]
+\* lines in the opposite order (list order is content only for "the first chain")
+RevLines(b) == [b EXCEPT !.lines = Reverse(b.lines)]
 \* lines in the opposite order, daughters swapped
 Mirror(b) ==
     [b EXCEPT !.lines = Reverse([i \in 1..Len(b.lines) |-> [b.lines[i] EXCEPT !.outs = <<b.lines[i].outs[2], b.lines[i].outs[1]>>]])]
 
 ----------------------------------------------------------------------------
-\* The state is the card together with what it denotes (sem is a function of
-\* card, kept in the state only so that the invariants share one evaluation).
-VARIABLE sem
-allvars == <<card, sem>>
-Init == card \in Cards /\ sem = Sem(Body(card))
-Next == UNCHANGED allvars
+Init == card \in Cards
+Next == UNCHANGED card
 
-B == Body(card)
-EE == sem.E
-
+\* ---- theorems about what a body b denotes (s = Sem(b)) ----------------------
 \* the grammar itself is sane: every name has quantum numbers, no decay is written twice
-WellFormed ==
-    /\ Names(EE) \subseteq DOMAIN B.qn
-    /\ \A i, j \in 1..Len(EE) : DecId(EE[i]) = DecId(EE[j]) => i = j
-    /\ B.top \notin Range(B.finals)
-    /\ \A i \in 1..Len(EE) : EE[i].core \notin Range(B.finals)
+WellFormedP(b, s) ==
+    /\ Names(s.E) \subseteq DOMAIN b.qn
+    /\ \A i, j \in 1..Len(s.E) : DecId(s.E[i]) = DecId(s.E[j]) => i = j
+    /\ b.top \notin Range(b.finals)
+    /\ \A i \in 1..Len(s.E) : s.E[i].core \notin Range(b.finals)
 
 \* the ordered and the declarative construction give the same chains, none twice
-SeqIsSet ==
-    LET cs == sem.seqs
-    IN /\ {Range(cs[k]) : k \in 1..Len(cs)} = sem.trees
-       /\ Cardinality(sem.trees) = Len(cs)
+SeqIsSetP(b, s) ==
+    LET cs == s.seqs
+    IN /\ {Range(cs[k]) : k \in 1..Len(cs)} = s.trees
+       /\ Cardinality(s.trees) = Len(cs)
        /\ \A k \in 1..Len(cs) : Cardinality(Range(cs[k])) = Len(cs[k])
-       /\ {Range(c) : c \in Range(sem.keptSeq)} = sem.kept
-       /\ {Range(c) : c \in Range(sem.chainSeq)} = sem.chains
+       /\ {Range(c) : c \in Range(s.keptSeq)} = s.kept
+       /\ {Range(c) : c \in Range(s.chainSeq)} = s.chains
 
 \* every kept chain leads from the top to exactly the finals through declared decays
-FromLine(d) ==
-    LET ln == B.lines[d.line]
-    IN /\ d.core \in Range(Cand(B, ln.core))
-       /\ d.outs[1] \in Range(Cand(B, ln.outs[1]))
-       /\ d.outs[2] \in Range(Cand(B, ln.outs[2]))
+FromLine(b, d) ==
+    LET ln == b.lines[d.line]
+    IN /\ d.core \in Range(Cand(b, ln.core))
+       /\ d.outs[1] \in Range(Cand(b, ln.outs[1]))
+       /\ d.outs[2] \in Range(Cand(b, ln.outs[2]))
        /\ d.pbreak = ln.pbreak /\ d.ll = ln.ll
-ChainShape ==
-    \A t \in sem.kept :
-        /\ Cardinality({i \in t : EE[i].core = B.top}) = 1
-        /\ Cardinality(t) = Len(B.finals) - 1
-        /\ \A i \in t : FromLine(EE[i])
-        /\ \A i \in t : EE[i].core # B.top => Produced(EE, t, EE[i].core) = 1 /\ Decayed(EE, t, EE[i].core) = 1
-        /\ \A n \in Range(B.finals) : Produced(EE, t, n) = Count(B.finals, n) /\ Decayed(EE, t, n) = 0
-        /\ \A i \in t, j \in {1, 2} : EE[i].outs[j] \in Range(B.finals) \/ Decayed(EE, t, EE[i].outs[j]) = 1
+ChainShapeP(b, s) ==
+    LET E == s.E
+    IN \A t \in s.kept :
+        /\ Cardinality({i \in t : E[i].core = b.top}) = 1
+        /\ Cardinality(t) = Len(b.finals) - 1
+        /\ \A i \in t : FromLine(b, E[i])
+        /\ \A i \in t : E[i].core # b.top => Produced(E, t, E[i].core) = 1 /\ Decayed(E, t, E[i].core) = 1
+        /\ \A n \in Range(b.finals) : Produced(E, t, n) = Count(b.finals, n) /\ Decayed(E, t, n) = 0
+        /\ \A i \in t, j \in {1, 2} : E[i].outs[j] \in Range(b.finals) \/ Decayed(E, t, E[i].outs[j]) = 1
 
-KeptSubset == sem.kept \subseteq sem.chains /\ sem.chains \subseteq sem.trees
-DroppedIff == \A t \in sem.chains : (t \notin sem.kept) <=> (\E i \in t : sem.al[i] = {})
+KeptSubsetP(b, s) == s.kept \subseteq s.chains /\ s.chains \subseteq s.trees
+\* a chain is dropped iff one of its decays has no allowed (l,s)
+DroppedIffP(b, s) == \A t \in s.chains : (t \notin s.kept) <=> (\E i \in t : s.al[i] = {})
 
 \* determinism / completeness at the level of the specification: what a card
 \* denotes does not depend on how it is written
 Denotes(s) == <<s.keptIds, s.names, s.free, s.bounded>>
-FlatEquivalent ==
-    LET f == Sem(Flat(B))
-    IN Denotes(f) = Denotes(sem) /\ f.E = [i \in 1..Len(EE) |-> [EE[i] EXCEPT !.line = i]]
+FlatEquivalentP(b, s) ==
+    LET f == Sem(Flat(b))
+    IN Denotes(f) = Denotes(s) /\ f.E = [i \in 1..Len(s.E) |-> [s.E[i] EXCEPT !.line = i]]
+\* line order changes the reference chain only
+LineOrderP(b, s) ==
+    LET r == Sem(RevLines(b))
+    IN /\ r.keptIds = s.keptIds /\ r.names = s.names /\ r.bounded = s.bounded
+       /\ Cardinality(r.free) = Cardinality(s.free)
+       /\ {n \in r.free : n \notin UNION {TotalNames(r.E, c) : c \in Range(r.keptSeq)}}
+            = {n \in s.free : n \notin UNION {TotalNames(s.E, c) : c \in Range(s.keptSeq)}}
 \* line order and daughter order change names and the reference chain, not the chains
-MirrorSameChains ==
-    LET m == Sem(Mirror(B))
-    IN m.keptIds = sem.keptIds /\ Cardinality(m.names) = Cardinality(sem.names)
-NamesConsistent ==
-    /\ sem.fixed \subseteq sem.names
-    /\ DOMAIN sem.bounded \subseteq sem.names
-    /\ Cardinality(sem.names) =
-         2 * Cardinality(sem.kept) + 2 * Cardinality(sem.kres)
-           + 2 * Cardinality(UNION {{<<i, ls>> : ls \in sem.al[i]} : i \in sem.kd})
+MirrorSameChainsP(b, s) ==
+    LET m == Sem(Mirror(b))
+    IN m.keptIds = s.keptIds /\ Cardinality(m.names) = Cardinality(s.names)
+NamesConsistentP(b, s) ==
+    /\ s.fixed \subseteq s.names
+    /\ DOMAIN s.bounded \subseteq s.names
+    /\ Cardinality(s.names) =
+         2 * Cardinality(s.kept) + 2 * Cardinality(s.kres)
+           + 2 * Cardinality(UNION {{<<i, ls>> : ls \in s.al[i]} : i \in s.kd})
+
+\* ---- the same as invariants of the state space --------------------------------
+\* TLC does not memoise Sem, so the model-checking configuration lists the single
+\* invariant Theorems (one evaluation of Sem per card); the individual ones are
+\* listed instead when Theorems fails, to name the failing theorem.
+B == Body(card)
+WellFormed == WellFormedP(B, Sem(B))
+SeqIsSet == SeqIsSetP(B, Sem(B))
+ChainShape == ChainShapeP(B, Sem(B))
+KeptSubset == KeptSubsetP(B, Sem(B))
+DroppedIff == DroppedIffP(B, Sem(B))
+FlatEquivalent == FlatEquivalentP(B, Sem(B))
+LineOrder == LineOrderP(B, Sem(B))
+MirrorSameChains == MirrorSameChainsP(B, Sem(B))
+NamesConsistent == NamesConsistentP(B, Sem(B))
+Theorems ==
+    LET b == Body(card)
+        s == Sem(b)
+    IN /\ WellFormedP(b, s) /\ SeqIsSetP(b, s) /\ ChainShapeP(b, s) /\ KeptSubsetP(b, s)
+       /\ DroppedIffP(b, s) /\ FlatEquivalentP(b, s) /\ LineOrderP(b, s) /\ MirrorSameChainsP(b, s)
+       /\ NamesConsistentP(b, s)
 
 CardOut(c) ==
     LET b == Body(c)
@@ -349,5 +383,6 @@ CardOut(c) ==
 
 Post ==
     /\ TLCGet("stats").diameter >= 0
-    /\ JsonSerialize(IOEnv.OUT_FILE, [cards |-> {CardOut(c) : c \in Cards}])
+    /\ LET cs == SetToSeq(Cards)
+       IN JsonSerialize(IOEnv.OUT_FILE, [cards |-> [i \in DOMAIN cs |-> CardOut(cs[i])]])
 ==========================================================================
